@@ -109,7 +109,7 @@ class C20(Prop):
         if case["meta"].get("locked"):
             lk = [r for r in results if r[0] == "lockfiles"]
             if not lk or lk[0][2].get("ok") != "1":
-                return []      # the file system does not support immutable files: nothing to judge
+                return self.skip("the file system does not support immutable files: nothing to judge")
             # every call after the lock must fail with exactly one error and change nothing
             seen_lock = False
             for name, kv in ops:
@@ -160,20 +160,20 @@ class C20(Prop):
             ri += 1
             if name == "counters":
                 if kind != "counters":
-                    return []
+                    return self.skip("guard")
                 got = {k: int(v) for k, v in o.items()}
                 if got != tally:
                     fails.append({"msg": "counters %s differ from the signals received by the test: %s" % (got, tally)})
                 continue
             if name == "clean":
                 if kind != "clean":
-                    return []
+                    return self.skip("guard")
                 shown = {"erred": int(o["failed"]), "added": int(o["added"]), "updated": int(o["updated"]), "passed": int(o["passed"]), "skipped": int(o["skipped"])}
                 if shown != tally:
                     fails.append({"msg": "the Snapshot Summary shows %s, the signals received by the tests add up to %s" % (shown, tally)})
                 continue
             if kind != "obs":
-                return []
+                return self.skip("guard")
             if name == "newprocess":
                 tally = {k: 0 for k in tally}
             if name == "skip":
